@@ -27,6 +27,7 @@ type Scope struct {
 	pkg        *types.Package
 	frame      *Frame // the function under verification (params, free vars, debug refs)
 	localFrame *Frame
+	at         ssa.Instruction // program point of the clause (call sites): disambiguates re-assigned locals
 	phiOver    map[ssa.Value]string
 	header     *ssa.BasicBlock
 }
@@ -206,6 +207,9 @@ func (sc *Scope) debugRef(fr *Frame, name string) (Val, bool) {
 				continue
 			}
 			// only variables declared in this function
+			if obj := d.Object(); obj != nil && obj.Pkg() != nil && obj.Parent() == obj.Pkg().Scope() {
+				continue
+			}
 			if d.IsAddr {
 				addr = d.X
 			} else if !seen[d.X] {
@@ -244,6 +248,33 @@ func (sc *Scope) debugRef(fr *Frame, name string) (Val, bool) {
 	}
 	if len(vals) == 1 {
 		return Val{T: sc.valueOf(fr, vals[0]), Ty: vals[0].Type()}, true
+	}
+	// several SSA values carry this name (the variable is assigned more than once, or shadowed): at a
+	// known program point, the one meant is the definition that dominates the point and is closest to it
+	if sc.at != nil {
+		var best ssa.Value
+		bestDepth, bestIdx := -1, -1
+		for _, v := range vals {
+			in, ok := v.(ssa.Instruction)
+			if !ok {
+				continue
+			}
+			b := in.Block()
+			if b == nil || !(b == sc.at.Block() || b.Dominates(sc.at.Block())) {
+				continue
+			}
+			idx := instrIndex(b, in)
+			if b == sc.at.Block() && idx >= instrIndex(b, sc.at) {
+				continue
+			}
+			d := domDepth(b)
+			if d > bestDepth || (d == bestDepth && idx > bestIdx) {
+				best, bestDepth, bestIdx = v, d, idx
+			}
+		}
+		if best != nil {
+			return Val{T: sc.valueOf(fr, best), Ty: best.Type()}, true
+		}
 	}
 	// several SSA values: usable only if they are constants/params that agree — otherwise ambiguous
 	sc.fail("identifier %q is ambiguous at this point (assigned several times)", name)
@@ -312,6 +343,8 @@ func (sc *Scope) typeByName(s string) (types.Type, string) {
 		return nil, s
 	case "mathint":
 		return nil, "Int"
+	case "interface{}":
+		return types.NewInterfaceType(nil, nil), ""
 	}
 	if strings.HasPrefix(s, "*") {
 		t, _ := sc.typeByName(s[1:])
